@@ -1360,6 +1360,9 @@ def r105(ctx):
 
 
 def run(ctx):
+    ctx.rule("R-10.6", "a path is weighted with the same configuration wherever its weight vector is computed: every call site of calc_cv_vector passes interfaces, moves, lambda_minus_one and cap from the same configuration keys (shared with C06 R-6.8)", floor=4)
+    from .shared import callsite_config_agreement as _cca10
+    ctx.attempt(_cca10, ctx, "R-10.6", "calc_cv_vector", ["interfaces", "moves", "lambda_minus_one", "cap"], " (the weights of loaded paths - state matrix, traj_data, data file - are counted over another region than wire_fencing / subt_acceptance / high_acc_swap use)")
     ctx.rule("R-10.1", "order parameters in the scan are touched only through order comparisons with left / right (exact region abstraction)", floor=1)
     ctx.rule("R-10.2", "the scan is the specified transducer: product of implementation (abstract interpretation of the loop) and specification explored to a fixpoint", floor=3)
     ctx.rule("R-10.3", "selection law: proportional pick with the ensemble's stream; segment = run plus bounding frames", floor=7)
@@ -1383,6 +1386,8 @@ _SCAN_EMIT = "            path_arr.append((isave, i + 1, i - isave))"
 _JUMP = "        if (op1 < left and op2 >= right) or (op2 < left and op1 >= right):\n            pass\n        elif op2 >= left > op1 and not key_l:"
 
 VARIANTS = [
+    B("c10-loaded-paths-weighted-without-the-cap", "infretis/classes/repex.py", "                cap=self.cap,\n            )\n            self.add_traj(\n                ens=i,", "            )\n            self.add_traj(\n                ens=i,", "R-10.6", control=True, why="seeded C10_l"),
+    K("c10-keep-load-paths-arguments-hoisted", "infretis/classes/repex.py", "                lambda_minus_one=self.config[\"simulation\"][\"tis_set\"][\n                    \"lambda_minus_one\"\n                ],\n                cap=self.cap,\n            )\n            self.add_traj(\n                ens=i,", "                lambda_minus_one=lm1_,\n                cap=self.cap,\n            )\n            self.add_traj(\n                ens=i,", also=[("infretis/classes/repex.py", "        size = self.n - 1\n        # we add all the i+ paths.", "        size = self.n - 1\n        lm1_ = self.config[\"simulation\"][\"tis_set\"][\"lambda_minus_one\"]\n        # we add all the i+ paths.")], why="the configuration value held in a local"),
     B("c10-first-weight-entry-constant", "infretis/core/tis.py", "    for idx, intf_i in enumerate(interfaces[:-1]):\n        if moves[idx + 1] == \"wf\":", "    cv.append(1.0)\n    for idx, intf_i in enumerate(interfaces[1:-1], start=1):\n        if moves[idx + 1] == \"wf\":", "R-10.4", control=True, why="seeded C10_k"),
     B("c10-wf-triple-starts-at-lambda-minus-one", "infretis/core/tis.py", "    cv = []\n    if minus:\n        if lambda_minus_one is not False:\n            return (1.0 if lambda_minus_one <= path_max else 0.0,)\n        else:\n            return (1.0 if interfaces[0] <= path_max else 0.0,)\n", "    left = interfaces[0] if lambda_minus_one is False else lambda_minus_one\n\n    cv = []\n    if minus:\n        return (1.0 if left <= path_max else 0.0,)\n", "R-10.4", control=True, also=[("infretis/core/tis.py", "            intfs = [interfaces[0], intf_i, intf_cap]\n            cv.append(compute_weight(path, intfs, moves[idx + 1]))", "            intfs = [left, intf_i, intf_cap]\n            cv.append(compute_weight(path, intfs, moves[idx + 1]))")], why="seeded C10_j"),
     K("c10-keep-minus-boundary-computed-once", "infretis/core/tis.py", "    cv = []\n    if minus:\n        if lambda_minus_one is not False:\n            return (1.0 if lambda_minus_one <= path_max else 0.0,)\n        else:\n            return (1.0 if interfaces[0] <= path_max else 0.0,)\n", "    left = interfaces[0] if lambda_minus_one is False else lambda_minus_one\n\n    cv = []\n    if minus:\n        return (1.0 if left <= path_max else 0.0,)\n", why="the [0-] branch of seed C10_j alone is an equivalent rewrite"),
